@@ -60,11 +60,28 @@ def corpus(tier, seed):
     return EL.add_slow_slice(rng, inputs, 100 if q else 1000)
 
 
+def droop_lemma(res, traces, verdicts, byid):
+    """unbounded complement (thorough tier): (m+1) * (floor(N/(m+1)) + 1) > N for all naturals, proved with TLAPS -- the reason at most m
+    candidates can hold a Droop quota at once.  Nothing else depends on it; a failing proof is a machinery failure, not a violation."""
+    import subprocess, shutil, os, re
+    from ..common import SPEC, Machinery
+    if res.tier != "thorough":
+        return
+    d = os.path.join(SPEC, "proofs")
+    shutil.rmtree(os.path.join(d, ".tlacache"), ignore_errors=True)
+    pr = subprocess.run(["tlapm", "--cleanfp", "Droop.tla"], cwd=d, capture_output=True, text=True, timeout=600)
+    shutil.rmtree(os.path.join(d, ".tlacache"), ignore_errors=True)
+    m = re.search(r"All (\d+) obligations proved", pr.stdout + pr.stderr)
+    if not m:
+        raise Machinery("tlapm did not prove spec/proofs/Droop.tla:\n" + (pr.stdout + pr.stderr)[-1500:])
+    res.notes["tlaps_droop_lemma"] = {"obligations": int(m.group(1)), "proved": int(m.group(1)), "cmd": "tlapm --cleanfp spec/proofs/Droop.tla"}
+
+
 def run(tier, seed, replay=None):
     def nontriv(t):
         return len(t["events"]) >= 2
     return EL.standard_run(
-        PID, tier, seed, replay, MC, corpus, nontriv,
+        PID, tier, seed, replay, MC, corpus, nontriv, extra=droop_lemma,
         rule_text="role 1: the DPC invariant (every candidate subset S, solid weight read off the initial profile) checked by TLC on every "
                   "terminal state of the Droop model: all profiles of <=K distinct rankings of 3 candidates x m x both modes x both "
                   "transfers x every random outcome; role 2: the same invariant evaluated by TLC on the final state of every validated "
